@@ -460,7 +460,7 @@ func Finish(env *Env, p *Prop, res *Result, start time.Time) int {
 		if isKnown {
 			continue
 		}
-		if p.Custom == nil && confirmed < confirmCap {
+		if p.Custom == nil && confirmed < confirmCap && v.Kind != "race-detector" { // race-detector findings were confirmed by a second run of the pass
 			// re-run from the recorded choice sequence twice; identical observation required
 			ok := true
 			var last *Violation
